@@ -30,7 +30,7 @@ NEW_RAW = 'yui::types::ratio::Ratio::<T>::new_raw'
 
 
 def sk(t):
-    return re.sub(r'#[0-9.]+', '', show(t))
+    return re.sub(r'#\d+\.\d+', '', show(t))
 
 
 def is_call(t, *suffixes):
